@@ -9,3 +9,13 @@ package core
 //@ props C05 C10
 //@ pure
 //@ ensures result <==> d > 0 && d < 14
+
+//@ pure SignedData.MessageRoot SignedData.Signature SignedData.Clone
+
+//@ axiom cloneSameRoot: all(d, SignedData, res(1, d.Clone()) == nil ==> res(0, res(0, d.Clone()).MessageRoot()) == res(0, d.MessageRoot()) && res(1, res(0, d.Clone()).MessageRoot()) == res(1, d.MessageRoot()))
+
+//@ func (d ParSignedData) Clone
+//@ props C07 C18 C14
+//@ pure
+//@ ensures r1 == nil <==> res(1, d.SignedData.Clone()) == nil
+//@ ensures r1 == nil ==> r0.ShareIdx == d.ShareIdx && r0.SignedData == res(0, d.SignedData.Clone())
